@@ -119,6 +119,17 @@ CHECKS = {
          "decoder length/text is unusable are counted and left to C08; decoders whose text depends on following bytes "
          "are compared with a zero tail as well (counted). .repeat is not generated (not in the property's quantifier).",
          "DESIGN.md 3/C18"),
+ "C19": ("hypothesis+nvserve",
+         "Hypothesis command histories against a sparse-memory reference model (model-based testing of one naken_util process per history)",
+         "Generated-input search: histories of 3..14 write/write16/write32/print/print16/print32/disasm commands with "
+         "addresses and values in decimal, 0x, h-suffix and negative spellings, optional -bin -address start-up image, "
+         "and for msp430 a write16'd instruction that is then single-stepped, on 10 CPUs (1/2/4/8 bytes per address, "
+         "both byte orders, alignments 1/2/4). Every printed value must equal the model in the CPU's byte order and "
+         "address units, named ranges must be shown, refusals must follow the alignment rule, disasm opcode columns "
+         "must show the written bytes, the stepped instruction must load the written immediate, and a final sweep "
+         "proves untouched addresses unchanged.",
+         "Trusted: Model in pyprops/c19.py. A range a-b must show at least a..b-1. ebpf disasm lines are excluded "
+         "(range tiling defect, C08). A session that exceeds 20 s is inconclusive, not a violation.", "DESIGN.md 3/C19"),
 }
 
 NOT_YET = "check not built yet (work in progress; see DESIGN.md section 3)"
